@@ -161,7 +161,7 @@ func genBigConc(r *rand.Rand) WL {
 }
 
 func gen(r *rand.Rand) WL {
-	if r.IntN(30) == 0 {
+	if r.IntN(50) == 0 {
 		return genBigConc(r)
 	}
 	w := WL{Width: []int{32, 64}[r.IntN(2)]}
